@@ -716,6 +716,13 @@ def run(fx, rep, tier):
             rep.rules["C06-R8"] = s8.rules["C06-R8"] + " (shared with C01-R6)"
             for o in s8.obls:
                 sub.obls.append(o)
+            # blanks at the ends of a query are part of the text the spans refer to
+            s9 = type(rep)(rep.prop, rep.tier)
+            c12.r9_same_text(facts, s9)
+            rep.rules["C06-R9"] = "leading and trailing blanks do not shift anything: " + s9.rules["C12-R9"] + " (shared with C12-R9)"
+            for o in s9.obls:
+                o["rule"] = "C06-R9"
+                sub.obls.append(o)
         if sub is not rep:
             for o in sub.obls:
                 o["key"] += "[rel]"
